@@ -1276,6 +1276,9 @@ fn edge(construct: &str, tag: &str, next: &str) -> String {
         "coalesce_absorbed" => format!("'{}' + (((coalesce({}, 'n') == 'x') || true) ? 'y' : 'n')", tag, next),
         "has_absorbed" => format!("'{}' + ((has({}) || true) ? 'y' : 'n')", tag, next),
         "ctor_in_list" => format!("'{}' + string(size([string({})]))", tag, next),
+        // the reference is reached for an element that precedes a deciding one
+        "exists_before_deciding" => format!("'{}' + ([1, 2].exists(v, v == 1 ? {} == 'x' : true) ? 'y' : 'n')", tag, next),
+        "all_before_deciding" => format!("'{}' + ([1, 2].all(v, v == 1 ? {} == 'x' : false) ? 'y' : 'n')", tag, next),
         _ => format!("f'{}{{{}}}'", tag, next),
     }
 }
@@ -1455,7 +1458,7 @@ fn scenarios(thorough: bool) -> Vec<Sc> {
             }
         }
     }
-    for c in ["or_absorbed", "list_element", "fstring_absorbed", "ctor_absorbed", "call_arg_absorbed", "macro_absorbed", "coalesce_absorbed", "has_absorbed", "ctor_in_list"] {
+    for c in ["or_absorbed", "list_element", "fstring_absorbed", "ctor_absorbed", "call_arg_absorbed", "macro_absorbed", "coalesce_absorbed", "has_absorbed", "ctor_in_list", "exists_before_deciding", "all_before_deciding"] {
         for len in 1..=3usize {
             for entry in 0..=1usize {
                 v.push(Sc::Cycle { construct: c, len, entry });
@@ -1566,7 +1569,8 @@ fn build12(sc: &Sc, seed: u64) -> WorldCase {
                 add(&mut ops, n, tag("prog", n, uniq).render());
             }
             ops.push(Op { t: t_exec, k: OpK::BindFunc { b: 0, name: "idf".into(), ret: V::Other("arg0".into()) } });
-            let src = match r.usize(5) {
+            let src = match r.usize(6) {
+                5 => format!("[1, 2].map(v, [v, {}])[1][1]", n),
                 0 => format!("[{}, 1][0]", n),
                 1 => format!("[1].map(v, {})[0]", n),
                 2 => format!("idf({})", n),
